@@ -22,6 +22,36 @@ def _quota_poll_blocks(F, fn):
     return out
 
 
+def _composite_loop_form(F, r, m):
+    """CompositeTermination::is_termination written as a loop: evaluated over 0, 1 and 2 member criteria (Iterator::next as a finite script, each member's answer enumerated)"""
+    for length in (0, 1, 2):
+        state = {"i": 0}
+
+        def nxt(i_, a, h, rl, state=state, length=length):
+            state["i"] += 1
+            return oe.some(oe.ref(oe.sym(f"member{state['i']}"))) if state["i"] <= length else oe.NONE
+        it = oe.Interp(F, m, {1: oe.ref(oe.sym("self")), 2: oe.ref(oe.sym("ctx"))}, fresh=True, enum_results=True, max_steps=3000, call_models={"Iterator::next": nxt})
+        orig = it._run
+
+        def run(choices, orig=orig, state=state):
+            state["i"] = 0
+            return orig(choices)
+        it._run = run
+        try:
+            paths = it.explore(max_paths=200)
+        except oe.Undecided as e:
+            r.ok("CompositeTermination::is_termination", f"not decided: the loop form is not evaluable ({e})")
+            return
+        for p in paths:
+            ans = [a[2] for a in p.assumptions if a[0] == "callret" and a[3] and a[3].endswith("::is_termination")]
+            want = any(ans)
+            inst = f"CompositeTermination::is_termination [{length} member(s): " + ",".join("fires" if x else "silent" for x in ans) + "]"
+            if p.ret == ("bool", want) and (want or len(ans) == length):
+                r.ok(inst, "terminates" if want else "continues")
+            else:
+                r.fail(inst, f"answers {p.ret} after asking {len(ans)} of {length} member(s): the composite must terminate as soon as ANY criterion fires and only then", F.loc(m))
+
+
 def l1_loop_guard(F, r):
     impls = [m for m in F.trait_impl_methods(STRAT) if m != STRAT]
     if not impls:
@@ -112,6 +142,8 @@ def l1_loop_guard(F, r):
     anyc = [t for _, t in mir.calls(cf) if t["callee"].endswith("Iterator::any") and mir.closure_arg_calls(F, cf, t, lambda c: c == TERM + "::is_termination")]
     if anyc:
         r.ok("CompositeTermination::is_termination", "any(criterion.is_termination)")
+    elif any(t["callee"].endswith("Iterator::next") for _, t in mir.calls(cf)):
+        _composite_loop_form(F, r, ct[0])
     else:
         r.fail("CompositeTermination::is_termination", "composite no longer terminates as soon as ANY criterion fires: a max-generations/max-time limit can be overrun when combined with another criterion", F.loc(ct[0]))
 
